@@ -63,6 +63,8 @@ let runners : (string * (z list -> z list)) list = [
   "pipebuf", run_pipebuf;
   "qidx", run_qidx;
   "bq", run_bq;
+  "reduce", run_reduce;
+  "dreduce", run_dreduce;
   "suspend", run_suspend;
   "once", run_once;
 ]
